@@ -100,14 +100,16 @@ class PythonToIrCompiler:
         # Create external function:
         ir_arg_types = [self.get_ty(t) for t in arg_types]
         if return_type:
+            ir_return_type = self.get_ty(return_type)
             ir_function = ir.ExternalFunction(
-                name, ir_arg_types, self.get_ty(return_type)
+                name, ir_arg_types, ir_return_type
             )
         else:
+            ir_return_type = None
             ir_function = ir.ExternalProcedure(name, ir_arg_types)
 
         self.builder.module.add_external(ir_function)
-        self.function_map[name] = ir_function, return_type, arg_types
+        self.function_map[name] = ir_function, ir_return_type, ir_arg_types
 
     def gen_function(self, df):
         """Transform a python function into an IR-function"""
